@@ -68,3 +68,114 @@ Fixpoint has_char (p : ascii -> bool) (s : string) : bool :=
 Definition starts_with_char (q : ascii) (s : string) : bool :=
   match s with String c _ => Ascii.eqb c q | EmptyString => false end.
 Definition q1 (q : ascii) : string := String q EmptyString.
+
+(* ------------------------------------------------------------------------------------------------------------------ *)
+(* Numeric, NULL and boolean literal tokens (the same in all five dialects).
+   unsigned numeric literal:  digit+ [ "." digit+ ] [ ("e"|"E") ["+"|"-"] digit+ ]
+   A leading "-" is the unary minus applied to the literal; `read_number` reads it with the literal ("signed literal").
+   Keywords NULL / TRUE / FALSE are read as the maximal run of word characters. *)
+From Coq Require Import ZArith.
+
+Inductive digit := d0 | d1 | d2 | d3 | d4 | d5 | d6 | d7 | d8 | d9.
+Definition digit_char (d : digit) : ascii :=
+  match d with d0 => "0" | d1 => "1" | d2 => "2" | d3 => "3" | d4 => "4" | d5 => "5" | d6 => "6" | d7 => "7" | d8 => "8" | d9 => "9" end%char.
+Definition char_digit (c : ascii) : option digit :=
+  match c with
+  | "0" => Some d0 | "1" => Some d1 | "2" => Some d2 | "3" => Some d3 | "4" => Some d4
+  | "5" => Some d5 | "6" => Some d6 | "7" => Some d7 | "8" => Some d8 | "9" => Some d9 | _ => None
+  end%char.
+Definition digit_val (d : digit) : Z :=
+  match d with d0 => 0 | d1 => 1 | d2 => 2 | d3 => 3 | d4 => 4 | d5 => 5 | d6 => 6 | d7 => 7 | d8 => 8 | d9 => 9 end%Z.
+Fixpoint dstr (ds : list digit) : string :=
+  match ds with [] => EmptyString | d :: ds' => String (digit_char d) (dstr ds') end.
+(* value of a digit sequence, most significant first *)
+Fixpoint dval_acc (ds : list digit) (acc : Z) : Z :=
+  match ds with [] => acc | d :: ds' => dval_acc ds' (10 * acc + digit_val d)%Z end.
+Definition dval (ds : list digit) : Z := dval_acc ds 0%Z.
+
+(* maximal run of digits *)
+Fixpoint read_digits (s : string) : list digit * string :=
+  match s with
+  | EmptyString => ([], EmptyString)
+  | String c s' => match char_digit c with
+                   | Some d => let r := read_digits s' in (d :: fst r, snd r)
+                   | None => ([], s)
+                   end
+  end.
+
+(* a numeric token: sign, integer part, optional fraction, optional exponent.  It denotes  (+/-) mant * 10^exp10 *)
+Record numtok := mk_numtok { nt_neg : bool; nt_ip : list digit; nt_fp : option (list digit); nt_ex : option Z }.
+Definition nt_mant (t : numtok) : Z := dval (nt_ip t ++ match nt_fp t with Some f => f | None => [] end).
+Definition nt_exp10 (t : numtok) : Z :=
+  (match nt_ex t with Some e => e | None => 0 end - Z.of_nat (List.length (match nt_fp t with Some f => f | None => [] end)))%Z.
+Definition nt_is_integer (t : numtok) : bool :=
+  match nt_fp t, nt_ex t with None, None => true | _, _ => false end.
+
+Definition read_fraction (s : string) : option (list digit) * string :=
+  match s with
+  | String "." s' => match read_digits s' with
+                     | ([], _) => (None, s)                (* "1." followed by a non-digit: the dot is not part of the literal *)
+                     | (f, r) => (Some f, r)
+                     end
+  | _ => (None, s)
+  end.
+Definition read_exponent (s : string) : option Z * string :=
+  match s with
+  | String c s' =>
+      if Ascii.eqb c "e" || Ascii.eqb c "E" then
+        match s' with
+        | String "+" s'' => match read_digits s'' with ([], _) => (None, s) | (e, r) => (Some (dval e), r) end
+        | String "-" s'' => match read_digits s'' with ([], _) => (None, s) | (e, r) => (Some (- dval e)%Z, r) end
+        | _ => match read_digits s' with ([], _) => (None, s) | (e, r) => (Some (dval e), r) end
+        end
+      else (None, s)
+  | EmptyString => (None, s)
+  end.
+Definition read_unsigned (neg : bool) (s : string) : option (numtok * string) :=
+  match read_digits s with
+  | ([], _) => None
+  | (ip, r1) => let (fp, r2) := read_fraction r1 in
+                let (ex, r3) := read_exponent r2 in
+                Some (mk_numtok neg ip fp ex, r3)
+  end.
+Definition read_number (s : string) : option (numtok * string) :=
+  match s with
+  | String "-" s' => read_unsigned true s'
+  | _ => read_unsigned false s
+  end.
+
+(* word characters: a token made of them ends only at a character that is not one (maximal munch) *)
+Definition is_word_char (c : ascii) : bool :=
+  let n := nat_of_ascii c in
+  (Nat.leb 48 n && Nat.leb n 57) || (Nat.leb 65 n && Nat.leb n 90) || (Nat.leb 97 n && Nat.leb n 122)
+  || Nat.eqb n 95 || Nat.eqb n 46 || Nat.leb 128 n.
+Definition ends_token (rest : string) : bool :=
+  match rest with EmptyString => true | String c _ => negb (is_word_char c) end.
+Fixpoint read_word (s : string) : string * string :=
+  match s with
+  | EmptyString => (EmptyString, EmptyString)
+  | String c s' => if is_word_char c then let r := read_word s' in (String c (fst r), snd r) else (EmptyString, s)
+  end.
+
+(* a literal VALUE token of the dialect: NULL, TRUE, FALSE, a signed numeric literal or a string literal *)
+Inductive family := Std | Backslash.
+Inductive sqlval := SNull | SBool (b : bool) | SNum (t : numtok) | SStr (s : string).
+Definition read_string_lit (fam : family) (q : ascii) (s : string) : option (string * string) :=
+  match fam with Std => read_literal_std q s | Backslash => read_literal_bs q s end.
+Definition read_value (fam : family) (q : ascii) (s : string) : option (sqlval * string) :=
+  match s with
+  | EmptyString => None
+  | String c _ =>
+      if Ascii.eqb c q then option_map (fun r => (SStr (fst r), snd r)) (read_string_lit fam q s)
+      else if Ascii.eqb c "-" || match char_digit c with Some _ => true | None => false end then
+        match read_number s with
+        | Some (t, r) => if ends_token r then Some (SNum t, r) else None        (* "12abc" is not a literal *)
+        | None => None
+        end
+      else
+        let (w, r) := read_word s in
+        if String.eqb w "NULL" then Some (SNull, r)
+        else if String.eqb w "TRUE" then Some (SBool true, r)
+        else if String.eqb w "FALSE" then Some (SBool false, r)
+        else None
+  end.
